@@ -1,5 +1,5 @@
-\* negative control: NewToUnicodeFile as at the pinned commit (increment form chosen by comparing
-\* neighbours); must FAIL LookupOK: <T, Repl, Repl+1> is written as an increment range
+\* negative control: bfrange sections cut by entry count only (as coded); must FAIL ReadableOK: the
+\* operands of the first entry plus the open value list of the second exceed the operand stack
 SPECIFICATION Spec
 CONSTANTS B = 4
   WITH_GAPS = TRUE
@@ -9,12 +9,12 @@ CONSTANTS B = 4
   Repl = 65533
   CHUNK = 2
   STACK = 7
-  CHUNK_STACK = TRUE
-  TU_FROM_START = FALSE
+  CHUNK_STACK = FALSE
+  TU_FROM_START = TRUE
   NOTDEF_OWN = TRUE
   Mode = "map"
-  SpaceNames = {"s1"}
-  FamNames = {"tuEdge"}
+  SpaceNames = {"s2"}
+  FamNames = {"tu1"}
   ChainSpaces = {}
   MaxTop <- TopFour
   MaxTotal = 0
@@ -23,5 +23,5 @@ CONSTANTS B = 4
   WideSpaces = {}
   NotdefOn = FALSE
   MaxRect = 0
-INVARIANTS LookupOK
+INVARIANTS ReadableOK
 CHECK_DEADLOCK FALSE
